@@ -20,7 +20,7 @@ EXPLANATION = (
     "evaluated for both timer types), both in one record for self.ac_id."
 )
 ASSUMPTIONS = ["round() is Python's banker's rounding; ties are outside the decided clauses"]
-FLOORS = {"C11.R1": 12, "C11.R2": 8, "C11.R3": 18, "C11.R4": 6, "C11.R5": 8, "C11.R6": 1, "C11.R7": 1, "C11.R8": 1}
+FLOORS = {"C11.R1": 12, "C11.R2": 8, "C11.R3": 18, "C11.R4": 6, "C11.R5": 8, "C11.R6": 1, "C11.R7": 1, "C11.R8": 1, "C11.R9": 1}
 
 ZONES = ((AT4_API, "At4Zone"), (AT5_API, "At5Zone"))
 ACS = ((AT4_API, "At4AirConditioner"), (AT5_API, "At5AirConditioner"))
@@ -39,8 +39,11 @@ def run(ctx):
 
     from . import c02
 
+    from . import c05
+
+    reuse(ctx, "C11.R9", [c05.r1_ability], "the limits a set-point is clamped into are the ones the console reported: the ability records are decoded as the vendor defines (C05.R1 for the ability decoders)")
     reuse(ctx, "C11.R8", [c02.r5], "an accepted call is not silently dropped: commands are sent with a 30 s policy, never with the connected-only policy of the requests (C02.R5)",
-          keep=lambda o: "command-lifetime" in o.construct or o.verdict != "HOLDS")
+          keep=lambda o: "command-lifetime" in o.construct or "idempotent-command" in o.construct or o.verdict != "HOLDS")
     reuse(ctx, "C11.R7", [c07.r7], "a raising subscriber does not abort the loop over the records of a status frame, so the abilities/sensor flags the validity checks read are those of the latest frame for every entity (C07.R7)")
     reuse(ctx, "C11.R6", [c04.r5], "the rounded set-point reaches the wire unchanged: the set-point conversion is exact on the model's resolution grid (C04.R5)",
           keep=lambda o: "set_point" in o.construct or "setpoint" in o.construct.lower() or o.verdict != "HOLDS")
@@ -466,6 +469,12 @@ def r5(ctx):
                     if el is c or (isinstance(el, ast.Name) and any(isinstance(d_.ast, ast.Assign) and d_.ast.value is c for d_ in f.defs_reaching(el.id, mn_) if d_.kind == "stmt") and len(f.defs_reaching(el.id, mn_)) == 1):
                         ok = True
         ctx.check(ok, R, f"{cls}.{meth}:single-record", m, f.node, "AcTimerControlMessage(ac_timer_status=[<that record>])", norm_text(msgs[0][1])[:120] if msgs else "no message")
+    # "as last reported": the stored timer record is replaced only by a timer-status frame (and given its default in __init__)
+    for modname, cls in ((AT4_API, "At4AirConditioner"), (AT5_API, "At5AirConditioner")):
+        m = ctx.repo.module(modname)
+        ci = m.get_class(cls)
+        writers = sorted(mn for mn, fnode in ci.methods.items() if any(isinstance(x, (ast.Assign, ast.AnnAssign, ast.AugAssign)) and any(dotted(t) == "self._ac_timer_status" for t in (x.targets if isinstance(x, ast.Assign) else [x.target])) for x in ast.walk(fnode)))
+        ctx.check(writers == ["__init__", "update_ac_timer_status"], R, f"{cls}:who-may-write:_ac_timer_status", m, ci.node, "self._ac_timer_status is assigned in __init__ and update_ac_timer_status only (the 'other' timer sent with a quick-timer command is the one the console last reported)", ", ".join(writers))
     # callers build the new state correctly
     for modname, cls, sender in ((AT4_API, "At4AirConditioner", "_send_timer_control_message"), (AT5_API, "At5AirConditioner", "_send_ac_timer_control_message")):
         f = fn_of(ctx, modname, f"{cls}.clear_quick_timer")
